@@ -48,6 +48,9 @@ func snapshotDir(dir string) map[string]string {
 	for _, e := range entries {
 		if e.IsDir() {
 			out[e.Name()+"/"] = ""
+			for n, b := range snapshotDir(filepath.Join(dir, e.Name())) {
+				out[e.Name()+"/"+n] = b
+			}
 			continue
 		}
 		b, _ := os.ReadFile(filepath.Join(dir, e.Name()))
